@@ -1213,7 +1213,9 @@ class UserSessionManager(Service, discriminator="user-session-manager"):
         def _remote_login(request: RequestFormat, context: Dict) -> RequestResponse:
             """Request should take the form [username, password, remote_ip_address]."""
             username, password, remote_ip_address = request
-            response = RequestResponse.from_bool(self.remote_login(username, password, remote_ip_address))
+            # remote_login returns the new session's id, or None when the login is refused
+            session_id = self.remote_login(username, password, remote_ip_address)
+            response = RequestResponse.from_bool(session_id is not None)
             response.data = {"remote_hostname": self.parent.config.hostname, "username": username}
             return response
 
